@@ -98,7 +98,7 @@ class C16(Prop):
         "restore_mapping_all_found", "hash_sites_as_modelled")]
     witness_theorems = ["NV.C16.Witness." + t for t in (
         "float_keys_collapse", "roundtripFloatKeys_Full_false", "cr_round_trips", "stray_byte_in_array_ok",
-        "inf_is_written_as_number", "same_name_saved", "same_name_variables")]
+        "inf_is_written_as_number", "same_name_saved", "same_name_variables", "old_mask_loses_the_key")]
     consts = [("maxSaveSvalueDepth", "MAX_SAVE_SVALUE_DEPTH"), ("nameStatic", "NAME_STATIC"),
               ("saveExtLen", "sizeof(SAVE_EXTENSION) - 1"), ("saveExt0", "SAVE_EXTENSION[0]"), ("saveExt1", "SAVE_EXTENSION[1]"),
               ("fillPercent", "FILL_PERCENT"), ("maxTableSize", "MAX_TABLE_SIZE"), ("mapHashTableSize", "MAP_HASH_TABLE_SIZE")]
